@@ -7,6 +7,7 @@ import (
 	"github.com/verily-src/fhirpath-go/fhirpath/system"
 	"github.com/verily-src/fhirpath-go/internal/fhir"
 	"github.com/verily-src/fhirpath-go/internal/protofields"
+	"google.golang.org/protobuf/reflect/protoreflect"
 )
 
 var (
@@ -67,9 +68,26 @@ func TypeOf(input any) (TypeSpecifier, error) {
 	if oneOf := protofields.UnwrapOneofField(item, "choice"); oneOf != nil {
 		item = oneOf
 	}
-	name := string(item.ProtoReflect().Descriptor().Name())
+	descriptor := item.ProtoReflect().Descriptor()
+	name := string(descriptor.Name())
 	if protofields.IsCodeField(item) {
 		return TypeSpecifier{FHIR, "code"}, nil
+	}
+	// A message nested in another one is an anonymous component: a
+	// BackboneElement inside a resource, a plain Element inside a data type.
+	if parent, nested := descriptor.Parent().(protoreflect.MessageDescriptor); nested {
+		top := parent
+		for {
+			outer, ok := top.Parent().(protoreflect.MessageDescriptor)
+			if !ok {
+				break
+			}
+			top = outer
+		}
+		if protofields.IsValidResourceType(string(top.Name())) {
+			return TypeSpecifier{FHIR, "BackboneElement"}, nil
+		}
+		return TypeSpecifier{FHIR, "Element"}, nil
 	}
 	return TypeSpecifier{FHIR, primitiveToLowercase(name)}, nil
 }
